@@ -208,11 +208,20 @@ fn cmd_run(args: &Args) {
     let output = Arc::new(Output::new(&out_dir));
     let opts = crash_opts(args);
     let scripts = Arc::new(scripts);
-    let n = scripts.len();
     let output_in = output.clone();
     let scripts_in = scripts.clone();
     let save_scripts = !args.flag("no-save-scripts");
-    parallel(n, args.num("jobs", 8) as usize, &out_dir, "trace", move |job, file| {
+    // --c14: consecutive scripts (same history under each policy) form a group handled by one
+    // worker; the first run of a group is the reference, the others are compared with it
+    let group = if args.flag("c14") {
+        args.get("policy", "always_flush").split(',').count()
+    } else {
+        1
+    };
+    let n = scripts.len() / group;
+    parallel(n, args.num("jobs", 8) as usize, &out_dir, "trace", move |group_idx, file| {
+      for member in 0..group {
+        let job = group_idx * group + member;
         let script = &scripts_in[job];
         if save_scripts {
             std::fs::write(
@@ -221,8 +230,11 @@ fn cmd_run(args: &Args) {
             )
             .unwrap();
         }
-        let (record, runner) = exec::run_script(script, job);
+        let (mut record, runner) = exec::run_script(script, job);
         drop(runner);
+        if group > 1 {
+            record.run_line["c14"] = json!(if member == 0 { 1 } else { 2 });
+        }
         output_in.add("runs", 1);
         output_in.add("calls", record.steps.len() as u64);
         output_in.add(
@@ -231,6 +243,41 @@ fn cmd_run(args: &Args) {
         );
         if record.aborted {
             output_in.add("aborted_runs", 1);
+        }
+        for step in &record.steps {
+            let op = step.begin["op"].as_str().unwrap_or("");
+            if op == "restart" {
+                output_in.add("restarts", 1);
+            }
+            if matches!(op, "truncate" | "delete" | "restart") {
+                output_in.add("gc_calls", 1);
+            }
+            let wrote = step
+                .events
+                .iter()
+                .any(|event| matches!(event, mrecordlog::verif::IoEvent::BufWrite { .. }));
+            if wrote && op != "restart" {
+                output_in.add("writing_calls", 1);
+            }
+            let noop = step.kind != "ok"
+                || (op == "append" && step.end["res"]["last"].as_i64() == Some(-1));
+            if noop && op != "restart" && op != "persist" {
+                output_in.add("noop_calls", 1);
+            }
+            if step
+                .events
+                .iter()
+                .any(|event| matches!(event, mrecordlog::verif::IoEvent::Unlink { .. }))
+            {
+                output_in.add("calls_with_unlink", 1);
+            }
+            if step
+                .events
+                .iter()
+                .any(|event| matches!(event, mrecordlog::verif::IoEvent::Create { .. }))
+            {
+                output_in.add("calls_with_rollover", 1);
+            }
         }
         let crash_lines = match &opts {
             Some(opts) => {
@@ -252,6 +299,7 @@ fn cmd_run(args: &Args) {
         let lines = crash::assemble(&record, crash_lines);
         output_in.add("trace_lines", lines.len() as u64);
         write_lines(file, &lines);
+      }
     });
     output.finish(json!({"cmd": "run"}));
     exec::cleanup_scratch();
